@@ -99,7 +99,7 @@ func checkC17(c *Ctx, r *Report) {
 	r.Explanation = "W-BITS: for the typed SEI messages with a serialiser (time code 136, mastering display 137, content light level 144) the decoder is executed on a symbolic payload under every configuration of its flags/counts, " +
 		"the message's Payload() is executed on the decoded value and compared bit by bit with what was read (plus rbsp trailing bits), and 8*Size() equals the number of bits Payload() writes; " +
 		"(O-RESTORE) the look-ahead EBSPReader.MoreRbspData restores every reader field that Read modifies (bit buffer, position AND the emulation-prevention zero counter); " +
-		"(R3-RET) no Decode*/Parse* function returns its own pointer parameter as the decoded message (ParseSEINalu passes the address of its loop variable); (R3) the Decode*/Parse* functions of sei, avc and hevc store only into memory they allocated (not through pointer parameters: a decoder that fills a caller-supplied structure makes successive messages alias each other); (O-EPB) the emulation-prevention writer inserts 0x03 before every byte 0..3 that follows two zero bytes; (O-FFRUN) the writer of the 0xFF-run coded type/size keeps emitting 0xFF while the remainder is >= 255; (O-SEIW) WriteSEIMessages writes, per message, Type(), Size() and then exactly the bytes of Payload(); pass-through messages return their stored payload. " +
+		"(R3-RET) no Decode*/Parse* function returns its own pointer parameter as the decoded message (ParseSEINalu passes the address of its loop variable); (R3) the Decode*/Parse* functions of sei, avc and hevc store only into memory they allocated (not through pointer parameters: a decoder that fills a caller-supplied structure makes successive messages alias each other); (O-EPB) the emulation-prevention writer inserts 0x03 before every byte 0..3 that follows two zero bytes; (O-EPBR) in EBSPReader.Read the zero counter is reset on the path that drops an emulation prevention byte, before it can be incremented again; (O-MORE) every cycle of the message loop of ExtractSEIData passes the MoreRbspData call (no message is started on the trailing bits); (O-FFRUN) the writer of the 0xFF-run coded type/size keeps emitting 0xFF while the remainder is >= 255; (O-SEIW) WriteSEIMessages writes, per message, Type(), Size() and then exactly the bytes of Payload(); pass-through messages return their stored payload. " +
 		"Does not decide emulation prevention itself or trailing-bit detection arithmetic (C13 territory), nor the AVC pic-timing message whose layout depends on external HRD parameters."
 	wireAssumptions(r)
 	for _, sp := range seiCodecs {
@@ -109,6 +109,8 @@ func checkC17(c *Ctx, r *Report) {
 	ruleRestore(c, r, "bits", "EBSPReader", "Read", "MoreRbspData")
 	ruleFFRun(c, r)
 	ruleEPB(c, r)
+	ruleEPBReader(c, r)
+	ruleSEIMoreData(c, r)
 	ruleReturnsParam(c, r, map[string]bool{"sei": true, "avc": true, "hevc": true})
 	requireFixture(r, "R3-RET", "DecodeAliasing", func(fc *Ctx, s *Report) { ruleReturnsParam(fc, s, map[string]bool{"mp4": true}) })
 	if n := rulePureInputs(c, r, map[string]bool{"sei": true, "avc": true, "hevc": true}); n < 35 {
@@ -182,7 +184,7 @@ func checkC18(c *Ctx, r *Report) {
 		"W-BITS: DecodeAudioSpecificConfig is executed on a symbolic bit stream under every configuration (object types, all 16 frequency indices incl. the 24-bit escape, SBR extension), " +
 		"AudioSpecificConfig.Encode is executed on the decoded value and compared bit by bit with what was read; " +
 		"(W-TRUNC) in mp4 and aac no value narrowed to 8/16 bits for one destination is widened again and used in place of the original (sampling frequencies above 65535); (DEP) SetAACDescriptor builds the esds DecSpecificInfo from the encoded configuration and the sample entry from the same configuration. " +
-		"ADTS (sync search loop) is covered only by T-INV; numeric exhaustiveness over the domain belongs to another technique family."
+		"(W-ESC) AudioSpecificConfig.Encode can write the 24-bit explicit frequency (escape index 0xf) at as many places as DecodeAudioSpecificConfig can read one; (W-SEQ) the bit fields ADTSHeader.Encode writes after the 16 bits of sync word/ID/layer/protection are, in order, width and struct field, the fields DecodeADTSHeader reads unconditionally after its sync search (56 bits in all); the sync search loop itself (offsets, bounds) is not decided; numeric exhaustiveness over the domain belongs to another technique family."
 	wireAssumptions(r)
 	ruleTINV(c, r, "aac", "FrequencyTable", "ReverseFrequencies")
 	ruleSpecTable(c, r, "aac", "", "FrequencyTable", [][]int64{{0, 96000}, {1, 88200}, {2, 64000}, {3, 48000}, {4, 44100}, {5, 32000}, {6, 24000}, {7, 22050}, {8, 16000}, {9, 12000}, {10, 11025}, {11, 8000}, {12, 7350}}, "ISO/IEC 14496-3 Table 1.18 (sampling frequency index)")
@@ -190,6 +192,8 @@ func checkC18(c *Ctx, r *Report) {
 		reportCodec(r, c, analyseCodec(c, sp))
 	}
 	ruleAscArms(c, r)
+	ruleADTSSequence(c, r)
+	ruleEscapeSites(c, r)
 	ruleTruncReuse(c, r, "W-TRUNC", func(f *ssa.Function) bool {
 		n := SSAFuncName(f)
 		return strings.HasPrefix(n, "mp4.") || strings.HasPrefix(n, "aac.")
